@@ -34,3 +34,17 @@ impl Variables {
         self.0.contains_key(name)
     }
 }
+
+#[cfg(feature = "verif-hooks")]
+impl Variables {
+    /// All (name, value) pairs, sorted by name.
+    pub(crate) fn verif_entries(&self) -> Vec<(String, Value)> {
+        let mut entries: Vec<(String, Value)> = self
+            .0
+            .iter()
+            .map(|(name, value)| (name.to_string(), value.clone()))
+            .collect();
+        entries.sort_by(|a, b| a.0.cmp(&b.0));
+        entries
+    }
+}
